@@ -1,0 +1,9 @@
+package nodes
+
+// verifhookSide names the input that is still open once the other one has ended (0 = left, 1 = right).
+func verifhookSide(leftDone bool) int {
+	if leftDone {
+		return 1
+	}
+	return 0
+}
